@@ -32,7 +32,13 @@ class List(Expression):
         return not self.min_len or self.min_len == '0'
 
     def can_partially_succeed(self):
-        return not self.always_succeeds() and self.expr.can_partially_succeed()
+        if self.always_succeeds():
+            return False
+        if self.min_len == 1 or self.min_len == '1':
+            return self.expr.can_partially_succeed()
+        # With a lower bound of two or more (or one that is only known at
+        # parse time), the list can fail after it has consumed some elements.
+        return True
 
     def _compile(self, out, flags):
         if self.max_len == 0 or self.max_len == '0':
